@@ -163,23 +163,29 @@ impl Property for C16 {
         }
     }
     fn required_labels(&self, _tier: Tier) -> Vec<&'static str> {
-        vec!["nontrivial", "cross-path-comparison", "diamond", "link-on-term-and-ancestor", "depth>33", "bulk>65535-terms", "depth>255"]
+        vec!["nontrivial", "cross-path-comparison", "diamond", "link-on-term-and-ancestor", "depth>33", "bulk>65535-terms", "depth>255", "direct-parents>255"]
     }
     fn run_generated(&self, tier: Tier, seed: u64, n: u64, stats: &mut Stats) -> Option<(Value, Failure)> {
         run_typed(strategy(tier), seed, n, stats, check)
     }
     fn replay(&self, case: &Value, stats: &mut Stats) -> Result<CheckResult, String> {
-        for (key, deep) in [("bulk", false), ("deep", true)] {
+        for (key, deep) in [("bulk", false), ("deep", true), ("fanin", false)] {
             if let Some(b) = case.get(key) {
                 // large facts (more than 65 535 terms / chains deeper than 255 links) in two supply orders
                 let v: (u32, u32, u32, PathSel, u16) = serde_json::from_value(b.clone()).map_err(|e| e.to_string())?;
                 stats.cases += 1;
-                let facts = if deep { deep_facts(v.0, v.1, v.2) } else { bulk_facts(v.0, v.1, v.2) };
+                let facts = if key == "fanin" {
+                    super::common::fanin_facts(v.0, v.1, v.2)
+                } else if deep {
+                    deep_facts(v.0, v.1, v.2)
+                } else {
+                    bulk_facts(v.0, v.1, v.2)
+                };
                 let keys: Vec<u16> = (0..64u32).map(|i| ((i * 40_503 + u32::from(v.4) * 977) % 65_521) as u16).collect();
                 let c = Case { base: OntCase { facts, path: v.3, noise: Default::default() }, keys, other_path: None };
                 let r = check(&c, stats);
                 if r.is_ok() {
-                    stats.label(if deep { "depth>255" } else { "bulk>65535-terms" });
+                    stats.label(if key == "fanin" { "direct-parents>255" } else if deep { "depth>255" } else { "bulk>65535-terms" });
                 }
                 return Ok(r);
             }
@@ -188,7 +194,7 @@ impl Property for C16 {
     }
     fn isolated_plans(&self, tier: Tier, seed: u64) -> Vec<Value> {
         let k = (seed % 60_000) as u16;
-        let mut out = vec![json!({"bulk": (65_700u32, 7919u32, 20u32, PathSel::Builder, k)}), json!({"deep": (300u32, 104_729u32, 10u32, PathSel::Bin(3), k)})];
+        let mut out = vec![json!({"bulk": (65_700u32, 7919u32, 20u32, PathSel::Builder, k)}), json!({"deep": (300u32, 104_729u32, 10u32, PathSel::Bin(3), k)}), json!({"fanin": (300u32, 7919u32, 10u32, PathSel::Bin(3), k)})];
         if tier == Tier::Thorough {
             out.push(json!({"bulk": (66_200u32, 104_729u32, 50u32, PathSel::Bin(3), k)}));
             out.push(json!({"deep": (1200u32, 7919u32, 20u32, PathSel::Builder, k)}));
